@@ -49,6 +49,31 @@ def run(res, tier, seed):
     vlib.model_check(res, SD, 'MCd', 'Demand_2.cfg', timeout=1500)
     if thorough:
         vlib.model_check(res, SD, 'MCm', 'Market_d8.cfg', deadlock=False, timeout=3000, xmx='24g')
+    # ---- mandatory concurrency: the +1 mandatory request an enqueue reports must be taken back when the flag is cleared, whatever the task pools hold at that moment
+    # (else the arena keeps a "mandatory" worker under max_allowed_parallelism = 1 with nothing enqueued).  Mandatory.tla instantiated with the fact probed by a
+    # directed schedule on the real arena (h_wake probe_mandatory)
+    wexe = vlib.build_harness('h_wake', ['sync/h_wake.cpp'])
+    p = vlib.sh([wexe, 'probe_mandatory'], timeout=300)
+    try:
+        mf = json.loads([l for l in p.stdout.splitlines() if l.startswith('{')][-1])
+    except Exception:
+        raise vlib.HarnessFailure('mandatory probe failed: %s' % (p.stdout + p.stderr)[-1500:])
+    if mf.get('rc') != 'ok' or mf.get('report_either') not in (0, 1):
+        raise vlib.HarnessFailure('mandatory probe inconclusive: %s' % mf)
+    res.extra.setdefault('code_facts', {}).update({'out_of_work_reports_either': mf['report_either']})
+    r = vlib.model_check(res, SD, 'Mandatory', 'Mandatory_a.cfg' if mf['report_either'] else 'Mandatory_a_poolonly.cfg', must_hold=False, deadlock=False, timeout=1500)
+    vlib.tlc_must_hold(r, 'Mandatory')
+    if r.violation:
+        if mf['report_either']:
+            raise vlib.HarnessFailure('Mandatory model violates %s with the default constants' % r.violation)
+        res.violation('mandatory:model:%s' % r.violation, 'arena::out_of_work clears my_mandatory_concurrency without taking the mandatory request back when the task pools are not empty at that moment '
+                      '(observed on the running code by a directed schedule: my_mandatory_requests stays 1 after the flag was cleared); with that fact the Mandatory model reaches a quiescent '
+                      'state in which the arena still claims a mandatory worker with nothing enqueued - under max_allowed_parallelism = 1 that worker executes ordinary parallel work '
+                      '(%s violated)' % r.violation, {'tlc_counterexample': vlib.extract_error_trace(r.out)[-40:], 'facts': mf})
+    else:
+        rv = vlib.model_check(res, SD, 'Mandatory', 'Mandatory_a_poolonly.cfg', must_hold=False, deadlock=False, timeout=1500)
+        if rv.violation != 'MandatoryAccounted':
+            raise vlib.HarnessFailure('vacuity control failed: Mandatory with REPORT_EITHER = FALSE should leave a mandatory request behind')
     # ---- allotment arithmetic on the real market
     import time; t0 = time.time()
     exe = vlib.build_harness('h_market', ['arena/h_market.cpp'])
